@@ -330,3 +330,11 @@ _cd_contract('level', layouts=[['a', 'b', 'c'], ['a', 'b']], type_matching=_flag
 _cd_contract('data', layouts=[['a', 'b', 'c'], ['c', 'b', 'a'], ['a', 'b'], ['a', 'b', 'c', 'd']],
              check_data=_DATA_FLAGS, check_types=_flag([None, ['a', 'b']]), condition=_COND,
              sortby=_flag([None, ['a']]), check_order=_flag([False]), create_temporaries=T.bool)
+
+REGISTRY[CP + 'PandasComparison.check_dataframe#order'].abstraction = 'frames are seen through a concrete column layout (reference a,b,c against an enumerated family of actual layouts), symbolic row counts and derived sub-frames; types_match, same_structure_ddiff, replace_cats and the message builders are assumed contracts with uninterpreted results'
+
+REGISTRY[CP + 'PandasComparison.check_dataframe#columns'].abstraction = 'frames are seen through a concrete column layout (reference a,b,c against an enumerated family of actual layouts), symbolic row counts and derived sub-frames; types_match, same_structure_ddiff, replace_cats and the message builders are assumed contracts with uninterpreted results'
+
+REGISTRY[CP + 'PandasComparison.check_dataframe#level'].abstraction = 'frames are seen through a concrete column layout (reference a,b,c against an enumerated family of actual layouts), symbolic row counts and derived sub-frames; types_match, same_structure_ddiff, replace_cats and the message builders are assumed contracts with uninterpreted results'
+
+REGISTRY[CP + 'PandasComparison.check_dataframe#data'].abstraction = 'frames are seen through a concrete column layout (reference a,b,c against an enumerated family of actual layouts), symbolic row counts and derived sub-frames; types_match, same_structure_ddiff, replace_cats and the message builders are assumed contracts with uninterpreted results'
